@@ -241,22 +241,6 @@ Proof.
         -- cbn [map combine fold_left fst snd]. fold n. exact Ed'.
 Qed.
 
-(* ---------- maintainer ---------- *)
 
-Lemma partition_str_first sep a b :
-  sep <> [] ->
-  (forall a1 a2, a = a1 ++ a2 -> a2 <> [] -> startswith sep (a2 ++ sep ++ b) = false) ->
-  partition_str sep (a ++ sep ++ b) = (a, true, b).
-Proof.
-  intros Hs. induction a as [|x a IH]; intros Hn.
-  - cbn [app]. destruct sep as [|s0 sep]; [contradiction|]. cbn [app partition_str].
-    assert (E : startswith (s0 :: sep) (s0 :: sep ++ b) = true).
-    { clear. change (s0 :: sep ++ b) with ((s0 :: sep) ++ b). generalize (s0 :: sep). intros l.
-      induction l as [|y l IHl]; [reflexivity|]. cbn. now rewrite N.eqb_refl. }
-    rewrite E. f_equal. cbn [length skipn]. clear. induction sep as [|y l IHl]; [reflexivity|]. cbn. exact IHl.
-  - cbn [app partition_str].
-    assert (E0 : startswith sep ((x :: a) ++ sep ++ b) = false) by (apply (Hn [] (x :: a) eq_refl); discriminate).
-    cbn [app] in E0. rewrite E0.
-    rewrite IH; [reflexivity|]. intros a1 a2 E Hne. apply (Hn (x :: a1) a2); [now rewrite E|exact Hne].
-Qed.
+
 
